@@ -136,6 +136,8 @@ def e3_configs(tier):
         for lm in (0, 1, 2, 3, 4):
             for to in (0, 1, 2):
                 cfgs.append((n, lm, to))
+    # directories that also hold FIFOs (several of them): entries whose host d_type has no WASI counterpart
+    cfgs += [(8, 0, 10), (8, 4, 11), (5, 2, 12)]
     return cfgs
 
 
